@@ -359,7 +359,7 @@ class SigmaString(SigmaType):
 
     def __add__(self, other: "SigmaString" | str | SpecialChars | Placeholder) -> "SigmaString":
         s = self.__class__()
-        if isinstance(other, self.__class__):
+        if isinstance(other, SigmaString):  # also a subclass + its base: the left operand's type is kept
             s.s = self.s + other.s
         elif isinstance(other, (str, SpecialChars, Placeholder)):
             s.s = self.s + [other]
